@@ -68,6 +68,14 @@ def main():
         if rc0 != 0 or rc1 == 0:
             meta["verdict"] = f"rejected: demo does not discriminate (clean exit {rc0}, patched exit {rc1})"
             return finish(a, meta, keep=False)
+        if a.skip_suite:
+            prev = os.path.join(VERIF, "seeded", a.id, "meta.json")
+            if os.path.exists(prev):
+                pm = json.load(open(prev))
+                if pm.get("suite_summary"):
+                    meta["suite_summary"] = pm["suite_summary"]
+                    meta["ran"] += [x for x in pm.get("ran", []) if "pytest" in x]
+                    meta["suite_note"] = "suite result carried over from the first vetting of this (unchanged) patch"
         if not a.skip_suite:
             t = time.time()
             rc, out = sh([PY, "-m", "pytest", "-q", "-p", "no:cacheprovider", "-n", "16", "--timeout=900", "--continue-on-collection-errors"], cwd=wt, env=env, timeout=3000)
